@@ -784,11 +784,11 @@ fn tcp_roundtrip(router: Router, frames: &[Vec<u8>], srv: u8, io: u8, salt: u64)
         if io & 16 != 0 {
             let mut r = OneByte(&mut stream);
             for _ in frames {
-                out.push(repe::read_message(&mut r).map_err(|_| "read")?);
+                out.push(repe::read_message(&mut r).map_err(|_| "no_response")?);
             }
         } else {
             for _ in frames {
-                out.push(repe::read_message(&mut stream).map_err(|_| "read")?);
+                out.push(repe::read_message(&mut stream).map_err(|_| "no_response")?);
             }
         }
         Ok(())
@@ -1067,7 +1067,15 @@ fn exec_twin(out: &mut Out, line: &str, w: &[&str]) -> (String, bool) {
                             out.oracle_fail(&format!("router.twin.{}.{}", kind, which), &format!("the server (options {}, io {io}, after {} requests on the connection) answered\n  {}\nbut plain.handle answered\n  {}", srv, decoys, got, r0), &ops);
                         }
                     }
-                    Err(e) => out.count(&format!("twin.e2e.io_error.{}", e)),
+                    Err(e) => {
+                        out.count(&format!("twin.e2e.io_error.{}", e));
+                        // Every request was written completely and is well formed; no handler panics; the server's read
+                        // timeout is not shorter than our stalls: then all responses are due (30 s watchdog). A dropped
+                        // connection or a response that never comes is "not the same response".
+                        if e == "no_response" && io & 8 == 0 {
+                            out.oracle_fail(&format!("router.twin.{}.{}.no_response", kind, which), &format!("the server (options {}, io {}) did not deliver all {} responses on the connection although in-process dispatch answers every request", srv, io, frames.len()), &ops);
+                        }
+                    }
                 }
             }
         }
@@ -1889,7 +1897,7 @@ impl Gen {
         });
         // (h) frames right below / at / above the 8 KiB BufReader/BufWriter capacity (and twice that)
         if self.rng.chance(1, 12) && matches!(bfmt, 2 | 3) && matches!(kind, "json" | "jsonctx" | "struct" | "registry") {
-            let target = *self.rng.pick(&[8191usize, 8192, 8193, 16383, 16384, 16385, 8192 - 11, 8192 + 48]);
+            let target = *self.rng.pick(&[8191usize, 8192, 8193, 16383, 16384, 16385, 8192 - 9, 16384 - 9, 8192 - 10, 8192 - 8, 8192 + 48]); // -9: the JSON echo response frame lands on the boundary
             if target > 48 + query.len() + 2 {
                 let k = target - 48 - query.len() - 2;
                 body = format!("\"{}\"", "x".repeat(k)).into_bytes();
